@@ -67,6 +67,17 @@ Theorem C20_open_after_error_is_clean : forall a c a' h p s srest g,
 Proof. exact open_after_error_is_clean. Qed.
 Print Assumptions C20_open_after_error_is_clean.
 
+(* a WHOLE script of connection-needing commands (any of the 21 verbs, any spelling, any arguments) given while
+   disconnected: every line is answered "Connection is not open.", nothing else is printed, the session state is untouched
+   (no library call is made, hence no network activity), the local files are untouched, and the run ends at the end of the
+   input with the success status *)
+Theorem C20_offline_script : forall lines w files out0,
+  w_open w = false -> Forall offline_line lines ->
+  let a := mkApp w files lines out0 in
+  run_main a = (ExitSuccess, mkApp w files [] (out0 ++ offline_output (length lines) ++ [OPrompt p_main])).
+Proof. exact offline_script. Qed.
+Print Assumptions C20_offline_script.
+
 (* non-vacuity: commands while disconnected, then end of input *)
 Example C20_example :
   let a := app_init [] [] [[108;115]; [71;69;84;32;120]; []; [98;111;103;117;115]] in
